@@ -101,10 +101,7 @@ namespace PV.C27
 open PV PV.BufFile PV.SftpFile PV.PyFile
 
 inductive Tag
-  | write_with_unread_rbuffer      -- write while read-ahead is buffered: lands at _realpos, not at the user's position
-  | read_with_unflushed_wbuffer    -- read/readline/readlines while written data is still buffered: not flushed first
   | tell_ignores_wbuffer           -- tell() does not count buffered writes
-  | truncate_ignores_buffers       -- truncate() neither flushes buffered writes nor drops read-ahead
   | truncate_not_checked_writable  -- truncate() on a file opened read-only succeeds
   | truncate_zeroes_file           -- server set_file_attr re-opens with "w+": surviving bytes become NULs (C31)
   | truncate_in_append_mode        -- append-mode size bookkeeping (_size) is not told about the truncation
@@ -125,13 +122,11 @@ def triggers (o : Ops Srv) (f : BF Srv) (op : FOp) : List Tag :=
   let live := !f.closed
   match op with
   | .read _ | .readline _ | .readlines _ =>
-    t (live && f.rd && !f.wbuf.isEmpty) .read_with_unflushed_wbuffer ++
     (match op with
      | .readlines (some _) => t (live && f.rd) .readlines_hint_rounding
      | .readline (some 0) => t (f.closed || !f.rd) .readline0_on_unreadable
      | _ => [])
-  | .write _ =>
-    t (live && f.wr && !f.rbuf.isEmpty) .write_with_unread_rbuffer
+  | .write _ => []
   | .seek off wh =>
     t f.closed .closed_file_call_accepted ++
     t (live && (let g := (BufFile.flush o f).1
@@ -140,7 +135,6 @@ def triggers (o : Ops Srv) (f : BF Srv) (op : FOp) : List Tag :=
   | .tell => t f.closed .closed_file_call_accepted ++ t (live && !f.wbuf.isEmpty) .tell_ignores_wbuffer
   | .flush => t f.closed .closed_file_call_accepted
   | .truncate n =>
-    t (live && (!f.wbuf.isEmpty || !f.rbuf.isEmpty)) .truncate_ignores_buffers ++
     t (live && !f.wr) .truncate_not_checked_writable ++
     t (live && f.wr && f.s.truncZero && n > 0) .truncate_zeroes_file ++
     t (live && f.app) .truncate_in_append_mode
